@@ -6011,6 +6011,9 @@ impl BytecodeVM {
                 {
                     match &value {
                         JsValue::Object(proto) => {
+                            if crate::value::prototype_chain_reaches(proto, obj_ref) {
+                                return Err(JsError::type_error("Cyclic __proto__ value"));
+                            }
                             obj_ref.borrow_mut().prototype = Some(proto.clone());
                         }
                         JsValue::Null => {
